@@ -99,12 +99,15 @@ class pyBQM:
 
         num_variables = quadratic.shape[0]
 
+        for v in range(num_variables):
+            if quadratic[v, v]:
+                raise ValueError(f"{v!r} cannot have an interaction with itself")
+        for v in range(num_variables):
+            self.add_variable(v)
         for u in range(num_variables):
-            for v in range(num_variables):
-                if u == v:
-                    continue
-                elif quadratic[u, v]:
-                    self.add_quadratic(u, v, quadratic[u, v])
+            for v in range(u + 1, num_variables):
+                if quadratic[u, v] + quadratic[v, u]:
+                    self.add_quadratic(u, v, quadratic[u, v] + quadratic[v, u])
 
         # now handle the linear
         if self._vartype is Vartype.SPIN:
